@@ -89,6 +89,9 @@ pub enum EdOp {
     RenameDir(usize, usize),
     WriteSchema(usize),
     WriteExt(usize),
+    /// "atomic save" of an editor: write `<PATHS[p]>.tmp~` next to the file, then rename it
+    /// over PATHS[p] (which may or may not exist)
+    AtomicSave(usize, usize),
 }
 
 pub struct World {
@@ -139,6 +142,13 @@ impl World {
             let _ = std::fs::create_dir_all(parent);
         }
         std::fs::write(&p, bytes).unwrap_or_else(|e| panic!("harness: write {p:?}: {e}"));
+    }
+
+    /// the temporary file an "atomic save" writes next to its target
+    pub fn temp_path_for(target: &Path) -> PathBuf {
+        let mut name = target.file_name().unwrap_or_default().to_os_string();
+        name.push(".tmp~");
+        target.with_file_name(name)
     }
 
     pub fn content_for(path_idx: usize, snippet_idx: usize) -> Vec<u8> {
@@ -214,6 +224,17 @@ impl World {
                     return false;
                 }
                 std::fs::rename(&from, &to).expect("harness rename dir");
+                true
+            }
+            EdOp::AtomicSave(p, s) => {
+                let p = *p % PATHS.len();
+                let abs = self.abs(PATHS[p].rel);
+                if !abs.parent().map(|d| d.is_dir()).unwrap_or(false) || abs.is_dir() {
+                    return false;
+                }
+                let tmp = Self::temp_path_for(&abs);
+                std::fs::write(&tmp, Self::content_for(p, *s)).expect("harness write temp");
+                std::fs::rename(&tmp, &abs).expect("harness rename temp");
                 true
             }
             EdOp::WriteSchema(v) => {
